@@ -1,1 +1,340 @@
-// placeholder
+// C16 scenarios — child module of `protocol::context` (reaches `Batcher`).
+//
+//  * c16_batcher : bare Batcher<Vec<usize>> shared by record tasks; batch closures are harness
+//                  futures that finish in an environment-chosen order with a planned verdict
+//  * c16_misuse  : one legal history followed by one misuse call, which must be loud
+
+use std::{
+    future::Future,
+    pin::Pin,
+    sync::{
+        Arc as StdArc, Mutex as StdMutex,
+        atomic::{AtomicBool, Ordering as AO},
+    },
+    task::{Context as TaskContext, Poll, Waker},
+};
+
+use futures::{StreamExt, future::join_all, stream};
+use serde_json::{Value, json};
+
+use super::batcher::Batcher;
+use crate::{
+    error::Error,
+    protocol::RecordId,
+    seq_join::seq_join,
+    sync::{Arc, Mutex},
+    verif::sim::*,
+};
+
+pub fn scenarios() -> Vec<&'static dyn Scenario> {
+    vec![&BatcherScenario, &MisuseScenario]
+}
+
+#[derive(Clone, Debug, PartialEq)]
+enum Ev {
+    Requested(usize),
+    ClosureStart(usize, Vec<usize>),
+    ClosureEnd(usize),
+    Resolved(usize, bool, String),
+}
+
+#[derive(Default)]
+struct Env {
+    events: Vec<Ev>,
+    released: Vec<bool>,
+    wakers: Vec<Option<Waker>>,
+    misuse: Option<Result<(), String>>,
+}
+
+struct Token {
+    b: usize,
+    env: StdArc<StdMutex<Env>>,
+}
+
+impl Future for Token {
+    type Output = ();
+    fn poll(self: Pin<&mut Self>, cx: &mut TaskContext<'_>) -> Poll<()> {
+        let mut e = self.env.lock().unwrap();
+        if e.released[self.b] {
+            Poll::Ready(())
+        } else {
+            let b = self.b;
+            e.wakers[b] = Some(cx.waker().clone());
+            Poll::Pending
+        }
+    }
+}
+
+type Shared = Arc<Mutex<Batcher<'static, Vec<usize>>>>;
+
+async fn do_record(batcher: Shared, env: StdArc<StdMutex<Env>>, i: usize, yields: usize, fail: StdArc<Vec<bool>>) {
+    for _ in 0..yields {
+        shuttle::future::yield_now().await;
+    }
+    // record something in the batch (what protocols do while computing), then ask for validation
+    batcher.lock().unwrap().get_batch(RecordId::from(i)).batch.push(i);
+    for _ in 0..(yields % 2) {
+        shuttle::future::yield_now().await;
+    }
+    let fut = {
+        let mut b = batcher.lock().unwrap();
+        env.lock().unwrap().events.push(Ev::Requested(i));
+        let env2 = StdArc::clone(&env);
+        b.validate_record(RecordId::from(i), move |idx, batch: Vec<usize>| async move {
+            env2.lock().unwrap().events.push(Ev::ClosureStart(idx, batch));
+            Token { b: idx, env: StdArc::clone(&env2) }.await;
+            env2.lock().unwrap().events.push(Ev::ClosureEnd(idx));
+            if fail[idx] { Err(Error::DZKPValidationFailed) } else { Ok(()) }
+        })
+    };
+    let r = fut.await;
+    env.lock().unwrap().events.push(Ev::Resolved(i, r.is_ok(), r.err().map(|e| e.to_string()).unwrap_or_default()));
+}
+
+pub struct BatcherScenario;
+
+fn gen_common(r: &mut Rng, tier: Tier) -> Value {
+    let rpb = r.range(1, 4);
+    let total = r.range(1, if tier == Tier::Quick { 12 } else { 20 });
+    let nb = total.div_ceil(rpb);
+    let style = r.below(3);
+    let order = r.perm(total);
+    let yields: Vec<usize> = (0..total).map(|_| r.below(4)).collect();
+    let fail: Vec<usize> = (0..nb).filter(|_| r.chance(1, 4)).collect();
+    let release = r.perm(nb);
+    json!({"rpb": rpb, "total": total, "style": style, "order": order, "yields": yields, "fail": fail, "release": release})
+}
+
+impl Scenario for BatcherScenario {
+    fn name(&self) -> &'static str {
+        "c16_batcher"
+    }
+
+    fn generate(&self, seed: u64, tier: Tier) -> Value {
+        let mut r = Rng::sub(seed, 16_01);
+        let mut p = gen_common(&mut r, tier);
+        let est = 80 + pu(&p, "total") as u64 * 16;
+        p["sched"] = SchedSpec::draw(&mut r, est, 200_000);
+        p
+    }
+
+    fn exec(&self, p: &Value, explicit: Option<Vec<u32>>) -> RunRes {
+        exec_batcher(p, explicit, None)
+    }
+}
+
+fn valid(p: &Value) -> Option<(usize, usize, usize, usize, Vec<usize>, Vec<usize>, Vec<usize>, Vec<usize>)> {
+    let rpb = pu(p, "rpb");
+    let total = pu(p, "total");
+    if rpb == 0 || total == 0 {
+        return None;
+    }
+    let nb = total.div_ceil(rpb);
+    let style = pu(p, "style");
+    let order = pvec(p, "order");
+    let yields = pvec(p, "yields");
+    let fail = pvec(p, "fail");
+    let release = pvec(p, "release");
+    let mut o = order.clone();
+    o.sort_unstable();
+    let mut rl = release.clone();
+    rl.sort_unstable();
+    if o != (0..total).collect::<Vec<_>>() || rl != (0..nb).collect::<Vec<_>>() || yields.len() < total || fail.iter().any(|b| *b >= nb) || style > 2 {
+        return None;
+    }
+    Some((rpb, total, nb, style, order, yields, fail, release))
+}
+
+/// misuse: Some((kind, record)) executed after the legal history completed
+fn exec_batcher(p: &Value, explicit: Option<Vec<u32>>, misuse: Option<(String, usize)>) -> RunRes {
+    let Some((rpb, total, nb, style, order, yields, fail, release)) = valid(p) else {
+        return RunRes::invalid("batcher: inconsistent plan");
+    };
+    let spec = SchedSpec::from_json(&p["sched"], explicit);
+    let shape = format!("batcher rpb{rpb} t{total} s{style} f{} m{}", fail.len(), misuse.as_ref().map(|m| m.0.clone()).unwrap_or_default());
+    let env = StdArc::new(StdMutex::new(Env {
+        released: vec![false; nb],
+        wakers: vec![None; nb],
+        ..Default::default()
+    }));
+    let env2 = StdArc::clone(&env);
+    let failv: StdArc<Vec<bool>> = StdArc::new((0..nb).map(|b| fail.contains(&b)).collect());
+    let (order2, yields2, release2, misuse2) = (order.clone(), yields.clone(), release.clone(), misuse.clone());
+
+    let outcome = run_sim(&spec, StdArc::new(AtomicBool::new(false)), move || {
+        let env = StdArc::clone(&env2);
+        let failv = StdArc::clone(&failv);
+        let (order, yields, release, misuse) = (order2.clone(), yields2.clone(), release2.clone(), misuse2.clone());
+        shuttle::future::block_on(async move {
+            let batcher: Shared = Arc::new(Batcher::new(rpb, total, Box::new(|_| Vec::new())));
+            let env_task = {
+                let env = StdArc::clone(&env);
+                shuttle::future::spawn(async move {
+                    for b in release {
+                        {
+                            let mut e = env.lock().unwrap();
+                            e.released[b] = true;
+                            if let Some(w) = e.wakers[b].take() {
+                                w.wake();
+                            }
+                        }
+                        shuttle::future::yield_now().await;
+                    }
+                })
+            };
+            let mut handles = Vec::new();
+            match style {
+                0 => {
+                    for i in order {
+                        handles.push(shuttle::future::spawn(do_record(Arc::clone(&batcher), StdArc::clone(&env), i, yields[i], StdArc::clone(&failv))));
+                    }
+                }
+                1 => {
+                    let (b, e, f) = (Arc::clone(&batcher), StdArc::clone(&env), StdArc::clone(&failv));
+                    handles.push(shuttle::future::spawn(async move {
+                        join_all(order.into_iter().map(|i| do_record(Arc::clone(&b), StdArc::clone(&e), i, yields[i], StdArc::clone(&f)))).await;
+                    }));
+                }
+                _ => {
+                    // as the validators drive it: sequential window equal to the batch size
+                    let (b, e, f) = (Arc::clone(&batcher), StdArc::clone(&env), StdArc::clone(&failv));
+                    handles.push(shuttle::future::spawn(async move {
+                        let mut s = seq_join(rpb.try_into().unwrap(), stream::iter(0..total).map(|i| do_record(Arc::clone(&b), StdArc::clone(&e), i, yields[i], StdArc::clone(&f))));
+                        while s.next().await.is_some() {}
+                    }));
+                }
+            }
+            for h in handles {
+                h.await.unwrap();
+            }
+            env_task.await.unwrap();
+            if let Some((kind, rec)) = misuse {
+                let r = match kind.as_str() {
+                    "get_batch" => {
+                        let mut b = batcher.lock().unwrap();
+                        let len = b.get_batch(RecordId::from(rec)).batch.len();
+                        Ok::<(), String>(()).map(|()| { let _ = len; })
+                    }
+                    _ => {
+                        let fut = batcher.lock().unwrap().validate_record(RecordId::from(rec), |_, _| async { Ok(()) });
+                        fut.await.map_err(|e| e.to_string())
+                    }
+                };
+                env.lock().unwrap().misuse = Some(r);
+            }
+        });
+    });
+
+    let e = env.lock().unwrap();
+    let ev = &e.events;
+    let pos = |want: &dyn Fn(&Ev) -> bool| ev.iter().position(|x| want(x));
+    // ---- history oracle ----
+    // closure exactly once per batch, with exactly that batch's records
+    for b in 0..nb {
+        let starts: Vec<&Ev> = ev.iter().filter(|x| matches!(x, Ev::ClosureStart(bb, _) if *bb == b)).collect();
+        if starts.len() > 1 {
+            return RunRes::violation("batch_checked_twice", format!("batch {b} check invoked {} times", starts.len()), shape, Some(outcome));
+        }
+        if let Some(Ev::ClosureStart(_, content)) = starts.first() {
+            let mut c = content.clone();
+            c.sort_unstable();
+            let want: Vec<usize> = (b * rpb..((b + 1) * rpb).min(total)).collect();
+            if c != want {
+                return RunRes::violation("batch_wrong_content", format!("batch {b} check ran over records {c:?}, expected {want:?}"), shape, Some(outcome));
+            }
+        }
+    }
+    for (k, x) in ev.iter().enumerate() {
+        if let Ev::Resolved(i, ok, err) = x {
+            let b = i / rpb;
+            // every record of the batch requested validation before
+            for j in b * rpb..((b + 1) * rpb).min(total) {
+                match pos(&|y| *y == Ev::Requested(j)) {
+                    Some(q) if q < k => {}
+                    _ => {
+                        return RunRes::violation("released_before_batch_complete",
+                            format!("record {i} resolved (event {k}) before record {j} of its batch {b} requested validation"), shape, Some(outcome));
+                    }
+                }
+            }
+            match pos(&|y| *y == Ev::ClosureEnd(b)) {
+                Some(q) if q < k => {}
+                _ => {
+                    return RunRes::violation("released_before_check_ran", format!("record {i} resolved before the check of batch {b} returned"), shape, Some(outcome));
+                }
+            }
+            if *ok == fail.contains(&b) {
+                return RunRes::violation("wrong_verdict", format!("record {i} of batch {b} resolved ok={ok} ({err}) but the check {}", if fail.contains(&b) { "failed" } else { "succeeded" }), shape, Some(outcome));
+            }
+        }
+    }
+    let resolved = ev.iter().filter(|x| matches!(x, Ev::Resolved(..))).count();
+    if let Some((kind, rec)) = &misuse {
+        // the legal part must have completed; the misuse must be loud
+        return match (&e.misuse, outcome.class) {
+            (Some(Ok(())), _) => RunRes::violation("misuse_silently_accepted", format!("{kind}({rec}) after a complete history (rpb {rpb}, total {total}) returned success"), shape, Some(outcome)),
+            (Some(Err(_)), "finished") | (None, "panic") if resolved == total => {
+                let mut r = RunRes::pass(shape, true, Some(outcome.clone()));
+                r.probe(if outcome.class == "panic" { "misuse_panicked" } else { "misuse_err" }, 1);
+                r
+            }
+            _ => RunRes::violation("misuse_other", format!("{kind}({rec}): outcome {} resolved {resolved}/{total}: {}", outcome.class, outcome.panic_msg.clone().unwrap_or_default()), shape, Some(outcome)),
+        };
+    }
+    match outcome.class {
+        "finished" => {
+            if resolved != total {
+                return RunRes::violation("record_never_released", format!("finished with {resolved} of {total} records resolved"), shape, Some(outcome));
+            }
+        }
+        "deadlock" | "stepcap" => {
+            return RunRes::violation("batcher_no_progress",
+                format!("{}: {resolved} of {total} records resolved (rpb {rpb}, style {style}); {}", outcome.class, truncate(&outcome.panic_msg.clone().unwrap_or_default(), 200)), shape, Some(outcome));
+        }
+        _ => {
+            return RunRes::violation("batcher_panic", format!("unexpected panic: {}", outcome.panic_msg.clone().unwrap_or_default()), shape, Some(outcome));
+        }
+    }
+    // out-of-order batch completion probe
+    let ends: Vec<usize> = ev.iter().filter_map(|x| if let Ev::ClosureEnd(b) = x { Some(*b) } else { None }).collect();
+    let mut res = RunRes::pass(shape, outcome.decisions > 0 && total > 1, Some(outcome));
+    res.probe("batches_completed_out_of_order", u64::from(ends.windows(2).any(|w| w[0] > w[1])));
+    res.probe("partial_last_batch", u64::from(total % rpb != 0));
+    res.probe("failing_batches", fail.len() as u64);
+    res
+}
+
+pub struct MisuseScenario;
+
+impl Scenario for MisuseScenario {
+    fn name(&self) -> &'static str {
+        "c16_misuse"
+    }
+
+    fn generate(&self, seed: u64, tier: Tier) -> Value {
+        let mut r = Rng::sub(seed, 16_02);
+        let mut p = gen_common(&mut r, tier);
+        let total = pu(&p, "total");
+        let rpb = pu(&p, "rpb");
+        let kind = r.pick(&["twice", "beyond", "get_batch"]);
+        let rec = match kind {
+            "beyond" => total + r.below(2 * rpb + 1),
+            _ => r.below(total),
+        };
+        p["misuse"] = json!({"kind": kind, "record": rec});
+        p["fail"] = json!([]);
+        let est = 80 + total as u64 * 16;
+        p["sched"] = SchedSpec::draw(&mut r, est, 200_000);
+        p
+    }
+
+    fn exec(&self, p: &Value, explicit: Option<Vec<u32>>) -> RunRes {
+        let kind = ps(&p["misuse"], "kind").to_string();
+        let rec = pu(&p["misuse"], "record");
+        let total = pu(p, "total");
+        if !["twice", "beyond", "get_batch"].contains(&kind.as_str()) || (kind == "beyond") != (rec >= total) {
+            return RunRes::invalid("misuse: plan");
+        }
+        exec_batcher(p, explicit, Some((kind, rec)))
+    }
+}
